@@ -397,6 +397,10 @@ def m_all(eng, it):
     return True
 
 
+m_any._lazy_ok = True
+m_all._lazy_ok = True
+
+
 def m_sorted(eng, it, key=None, reverse=False):
     items = list(eng.iterate(it))
     ks = [eng.call(key, [i], {}) for i in items] if key is not None else items
